@@ -36,6 +36,15 @@ def run(tier, seed):
             v.violation(viol['sig'], viol.get('replay'))
     import e2e_common
     e2e_common.report_rules(v, PROP, res['trace_rules'])
+    # resumed transfers outside the kill grid: leftovers of an attempt with another chunk size (the final tree must be the
+    # source's), and resume information that reaches the sender only after its grace period (it must still count)
+    sx = vlib.run_vh_sharded(['xfer-special', '-seed', str(seed), '-groups', 'rechunk,lateinfo'], 6, timeout=1800)
+    for viol in sx['violations']:
+        sig = viol['sig']
+        if sig.get('property') == PROP:
+            v.violation(sig, viol.get('replay'))
+        elif sig.get('property') == 'C01' and sig.get('tree') == 'stale-geometry':
+            v.violation(dict(kind='tree_differs_after_resumed_run', tree='stale-geometry'), viol.get('replay'))
     # the application level: a real `thru join` is killed in mid-transfer, a second real join into the same
     # directory answers the resume / overwrite prompt; identical tree required; both joins' traces validated
     import os
@@ -56,6 +65,7 @@ def run(tier, seed):
                       samples=res['samples'][:4] + st['samples'][:3], outcomes=res['extra'].get('outcomes'),
                       consistent_states=dict(resumed=st['behaviours'], partial_bitmaps=st['distinct'], outcomes=st['extra'].get('outcomes')), plans_total=res['extra'].get('plans_total'),
                       skipped_over_budget=res['extra'].get('skipped_over_budget'),
+                      special_histories=dict(runs=sx['behaviours'], outcomes=sx['extra'].get('outcomes')),
                       real_binary_sessions=dict(sessions=er['behaviours'], first_run_killed=er['distinct'], outcomes=er['extra'].get('outcomes'), trace_lines_validated=estats),
                       tlc=dict(states=mc['states'], transitions=mc['transitions'], runs=mc['runs']))
     v.assumptions = ["receiver killed by SIGKILL; sender kept healthy and restarted for the resumed run (sender kills / connection drops are exercised by C02's fault positions followed by C06's resumed runs)",
